@@ -391,7 +391,7 @@ static int is_encrypted_filename(const char *filename)
     if (len >= 6)
         return !strncmp(filename + len - 6, ".ascon", 6);
     else
-        return 1;
+        return 0;
 }
 
 /* Strips the ".ascon" suffix from a filename */
